@@ -1,0 +1,15 @@
+//go:build verif
+
+package m
+
+// VerifEntries returns a copy of the routing table entries in table order.
+func (rt *RoutingTable) VerifEntries() []RoutingTableEntry {
+	rt.lock.RLock()
+	defer rt.lock.RUnlock()
+
+	out := make([]RoutingTableEntry, 0, len(rt.entries))
+	for _, rte := range rt.entries {
+		out = append(out, *rte)
+	}
+	return out
+}
